@@ -145,7 +145,7 @@ def run(ctx):
             dress(m, rng)
             ctx.count("extreme_atoms", sum(1 for a in m.atoms if a.hcount is not None))
         else:
-            m = random_tree_mol(rng, rng.choice([3, 6, 10, 20, 40]), ncomp=rng.choice([1, 1, 2]),
+            m = random_tree_mol(rng, rng.choice([3, 6, 10, 20, 40]), ncomp=rng.choice([1, 1, 2, 3, 11]),
                                 p_ring=rng.choice([0.05, 0.15, 0.4]), table=table)
         if not m.atoms:
             continue
